@@ -48,6 +48,7 @@ func (r *recorder) log(c int, proc, name string, kv ...any) {
 }
 
 type live struct {
+	noFilter  bool // the server runs WithHasSubcontract(false)
 	g         *service.GoJT808
 	addr      string
 	rec       *recorder
@@ -257,6 +258,7 @@ func startLive(o liveOpts) *live {
 		return e
 	})}
 	if o.noFilter {
+		l.noFilter = true
 		opts = append(opts, service.WithHasSubcontract(false))
 	}
 	if o.handlers != nil {
@@ -317,7 +319,7 @@ func (l *live) dial(phone []byte, ver int) *term {
 	}
 	t := &term{l: l, idx: idx, conn: c.(*net.TCPConn), phone: phone, ver: ver, recvCh: make(chan []byte, 100000)}
 	t.conn.SetNoDelay(true)
-	l.rec.log(idx, "D", "reset", "ver", ver, "phone", B(phone))
+	l.rec.log(idx, "D", "reset", "ver", ver, "phone", B(phone), "filter", !l.noFilter)
 	go t.readLoop()
 	return t
 }
